@@ -220,6 +220,7 @@ def tasks(tier):
         ts.append(("store", 2, 3, i))
     for i in range(len(WIDE)):
         ts.append(("wide", i))
+    ts.append(("long",))
     for i in range(len(RED) ** 2):
         ts.append(("seq", i))
     if tier == "thorough":
@@ -266,6 +267,18 @@ def run_task(task, acc):
                     yield dict(entry="qartod_compare", vectors=vectors, carrier="f8w")
                     if ints:
                         yield dict(entry="qartod_compare", vectors=vectors, carrier="i8w")
+        run_cases(acc, gen(), check_case)
+    elif kind == "long":
+        def gen():
+            base = alpha.debruijn(SYMS, 2) * 4   # 328 entries, every ordered pair of symbols adjacent
+            shifts = (0, 1, 9, 10, 82)
+            vs_ = [base[s:] + base[:s] for s in shifts]
+            for k in (1, 2, 3, 5):
+                yield dict(entry="qartod_compare", vectors=[list(v) for v in vs_[:k]], carrier="ma")
+                yield dict(entry="qartod_compare", vectors=[list(v) for v in reversed(vs_[:k])], carrier="ma")
+                yield dict(entry="aggregate", vectors=[list(v) for v in vs_[:k]])
+            red = alpha.debruijn(RED, 2) * 6
+            yield dict(entry="store", vectors=[list(red), list(red[5:] + red[:5]), list(red[11:] + red[:11])])
         run_cases(acc, gen(), check_case)
     elif kind == "seq":
         pool = vecs(RED, 2)
